@@ -430,6 +430,8 @@ where R: Ring, for<'x> &'x R: RingOps<R> {
         let (h, t) = self.ht().clone();
         let keys = self.collect_keys(left, right, i, true);
 
+        #[cfg(yui_verif)]
+        use yui_verif_rt::sync::RwLock;
         let lock = RwLock::new(self);
         
         keys.into_par_iter().for_each(|(k0, l0)| { 
